@@ -344,6 +344,7 @@ import QV.Proofs.ServerSignedTable
 import QV.Proofs.ServerSignedPlain
 import QV.Proofs.ServerSignedCompare
 import QV.Proofs.ServerDecodeCongr
+import QV.Proofs.ServerScratchIndep
 
 namespace QV.C10
 open QV QV.Server QV.Writer QV.Tsig QV.ServerTsig
